@@ -30,7 +30,13 @@ type rNode struct {
 	data     []byte
 	mtime    int64 // seconds; meaningful when mtimeSet
 	mtimeSet bool
+	// set-uid / set-gid / sticky as set by the last Chmod (creation modes carry them platform-dependently,
+	// so they are compared only once a Chmod has defined them)
+	special    hackpadfs.FileMode
+	specialSet bool
 }
+
+const rSpecialBits = hackpadfs.ModeSetuid | hackpadfs.ModeSetgid | hackpadfs.ModeSticky
 
 type rTree struct{ n map[string]*rNode }
 
@@ -176,6 +182,7 @@ func (t *rTree) openFile(p string, flag int, perm hackpadfs.FileMode) (syscall.E
 	if n.kind == rFile && flag&syscall.O_TRUNC != 0 {
 		n.data = nil
 		n.mtimeSet = false
+		n.specialSet = false // a write may clear set-uid/set-gid (platform- and privilege-dependent)
 	}
 	return 0, ""
 }
@@ -186,6 +193,7 @@ func (t *rTree) writeFile(p string, data []byte, perm hackpadfs.FileMode) (sysca
 	}
 	t.n[p].data = append([]byte{}, data...)
 	t.n[p].mtimeSet = false
+	t.n[p].specialSet = false
 	return 0, ""
 }
 
@@ -256,6 +264,7 @@ func (t *rTree) chmod(p string, mode hackpadfs.FileMode) (syscall.Errno, string)
 		return e, p
 	}
 	t.n[p].perm = mode & 0777
+	t.n[p].special, t.n[p].specialSet = mode&rSpecialBits, true
 	return 0, ""
 }
 
@@ -432,6 +441,9 @@ func rCompare(fs rFS, t *rTree, when string) {
 		verifAssert(info.IsDir() == (want.kind == rDir), when+": kind differs from os")
 		if p != "." {
 			verifAssert(info.Mode().Perm() == want.perm, when+": permission bits differ from os")
+		}
+		if want.specialSet && p != "." {
+			verifAssert(info.Mode()&rSpecialBits == want.special, when+": set-uid/set-gid/sticky bits set through Chmod differ from os")
 		}
 		if want.mtimeSet {
 			verifAssert(info.ModTime().Unix() == want.mtime, when+": modification time set through Chtimes differs")
